@@ -68,7 +68,7 @@ def one(n, pairs, sh, V, k, D, T, base, form, rng):
         R = np.round(X)
         rec["exact"] = bool(A.shape == (n, n) and np.all(np.abs(X - R) <= 1e-9 * np.maximum(1.0, np.abs(R))))
         rec["Qc"] = [[int(v) for v in row] for row in R.tolist()]
-        c = rng.uniform(-30, 30)
+        c = rng.choice([rng.uniform(-30, 30), -25000.0, -6000.0, 4000.0, 30000.0])      # also absolute (force-field / QM) energy scales
         with quiet():
             again = SQRA(E, np.array(V, dtype=float), hm, Sm).get_rate_matrix(float(D), T).toarray()     # the same inputs once more
         if not np.array_equal(again, A):
@@ -122,7 +122,7 @@ def wide(n, pairs, sh, V, k, D, T, form, rng):
         big = np.max(np.abs(A), axis=1)
         res = np.abs(A.sum(axis=1)) / np.where(big > 0, big, 1.0)
         rec["rowRes12"] = int(np.ceil(np.max(res) * 1e12))
-        c = rng.uniform(-30, 30)
+        c = rng.choice([rng.uniform(-30, 30), -25000.0, -6000.0, 4000.0, 30000.0])      # also absolute (force-field / QM) energy scales
         with quiet():
             Q2 = SQRA(E + c, np.array(V, dtype=float), hm, Sm).get_rate_matrix(float(D), T).toarray()
             Q3 = SQRA(E, np.array(V, dtype=float), hm, Sm).get_rate_matrix(2.0 * D, T).toarray()
